@@ -124,7 +124,7 @@ def check_pair(ctx, a, b, mo, W):
     m_ab, m_ba, m_tok, m_ha, m_hb, m_spec, m_compat = [bool(x) for x in mo]
     case = dict(path='pair', a=a, b=b)
     x, y = to_python(a), to_python(b)
-    sig = 'path=pair;a=%s%s;b=%s%s' % (a[0], 'x'.join(map(str, a[1])) or '0d', b[0], 'x'.join(map(str, b[1])) or '0d')
+    sig = 'path=pair;a=%s;b=%s;shapes=%s' % (a[0], b[0], 'same' if norm(a)[1] == norm(b)[1] else 'differ')
     ctx.traces_validated += 1
     try:
         r_ab, r_ba = W(x) == W(y), W(y) == W(x)
@@ -260,7 +260,7 @@ def check_sensor(ctx, case, mo):
                   greedy=list(igreedy) if case['greedy'] is not None else None, ar=case['ar'], rep='sv', path='direct')
     if 'P' in case:
         pseudo['P'] = case['P']
-    base = 'values=%s;path=%s;%s' % (case['values'], case['path'], c10.classify(pseudo))
+    base = 'values=%s;path=%s' % (case['values'], case['path'])
     in_domain = spec[0] == 1
     if ob[0] == 'err':
         if in_domain:
